@@ -22,7 +22,9 @@ def cases(draw, big=False):
             'gumbel': draw(st.booleans()), 'hard': draw(st.booleans()),
             'train_first': draw(st.booleans()),
             # the network is handed over in training mode (the default state of a new module)
-            'wrap_train': draw(st.booleans())}
+            'wrap_train': draw(st.booleans()),
+            # another assignment was evaluated (eval forward) before this one
+            'prior': draw(st.booleans())}
 
 
 def _quant_layers(exported):
@@ -42,6 +44,9 @@ def oracle(case) -> Result:
     mps, x0 = mu.build_mps(spec, case['wseed'], case['w_prec'], case['a_prec'],
                            temperature=case['temperature'], gumbel_softmax=case['gumbel'],
                            hard_softmax=case['hard'], wrap_train=bool(case.get('wrap_train')))
+    if case.get('prior'):
+        mu.earlier_assignment(mps, mu.mps_input(spec, case['xseed'] + 1), case['aseed'])
+        res.ev('earlier-assignment-evaluated-first')
     mu.set_coefficients(mps, case['aseed'])
     x = mu.mps_input(spec, case['xseed'])
     if case['train_first']:
